@@ -28,7 +28,7 @@ theorem establish2_inv (s : State) (hid : ∀ k, s.conn = some k → k.id < s.ne
     have : (establish2 s).1 = { s with fsm := .idle, attempts := s.attempts + 1, pc := .connecting } := by
       simp [establish2, fsmTo, hc]
     rw [this]
-    exact inv_idle rfl (by simp [hc]) (by simp [awaited]) (by simp) (by simp [hup])
+    exact inv_idle rfl (by simp [hc]) (by simp [awaited]) (by simp) (by simp [hup]) (by simp [hc])
   | some k =>
     have : (establish2 s).1 = (afterConnect { s with fsm := .idle }).1 := by
       simp [establish2, fsmTo, hc]
@@ -292,6 +292,7 @@ theorem Inv.bump {s : State} (h : Inv s) : Inv { s with nextId := s.nextId + 1 }
   · intro k hk; exact Nat.lt_succ_of_lt (h.connId k hk)
   · intro c hc; exact Nat.lt_succ_of_lt (h.awaitId c hc)
   · exact h.up
+  · exact h.quietFresh
 
 /-- without a connection the FSM variable is IDLE, or ACTIVE in the passive wait. -/
 theorem Inv.idle_of_noconn {s : State} (h : Inv s) (hc : s.conn = none) (hp : s.pc ≠ .passiveWait) : s.fsm = .idle := by
@@ -325,7 +326,7 @@ theorem handleConnection_inv (s : State) (h : Inv s) : Inv (handleConnection s).
       | none =>
         simp only [Option.isSome_none, Bool.false_eq_true, if_false, hp]
         have hf := h.idle_of_noconn hc hp
-        refine inv_idle hf (by simp) ?_ (by simpa using hp) ?_
+        refine inv_idle hf (by simp) ?_ (by simpa using hp) ?_ (by simp)
         · intro c haw
           have := h.awaitId c (by simpa [awaited] using haw)
           refine ⟨by simp; omega, ?_⟩
@@ -333,7 +334,7 @@ theorem handleConnection_inv (s : State) (h : Inv s) : Inv (handleConnection s).
         · intro hu; exact (h.up hu).resolve_left (by rw [hf]; simp)
       | some k =>
         simp only [Option.isSome_some, if_true, closeP_fst, hp, if_false]
-        refine inv_idle rfl (by simp) ?_ (by simpa using hp) ?_
+        refine inv_idle rfl (by simp) ?_ (by simpa using hp) ?_ (by simp)
         · intro c haw
           have := h.awaitId c (by simpa [awaited] using haw)
           refine ⟨by simp; omega, ?_⟩
@@ -347,7 +348,7 @@ theorem stop_inv (s : State) (h : Inv s) : Inv ((if s.conn.isSome then closeP s 
   cases hc : s.conn with
   | none =>
     simp only [Option.isSome_none, Bool.false_eq_true, if_false]
-    refine inv_idle rfl (by simp [hc]) ?_ (by simp [hc]) ?_
+    refine inv_idle rfl (by simp [hc]) ?_ (by simp [hc]) ?_ (by simp [hc])
     · intro c haw
       exact ⟨h.awaitId c (by simpa [awaited] using haw), by simp [hc]⟩
     · intro hu
@@ -356,7 +357,7 @@ theorem stop_inv (s : State) (h : Inv s) : Inv ((if s.conn.isSome then closeP s 
       · exact h1
   | some k =>
     simp only [Option.isSome_some, if_true, closeP_fst]
-    refine inv_idle rfl (by simp) ?_ (by simp) ?_
+    refine inv_idle rfl (by simp) ?_ (by simp) ?_ (by simp)
     · intro c haw
       exact ⟨h.awaitId c (by simpa [awaited] using haw), by simp⟩
     · intro hu
@@ -372,7 +373,7 @@ theorem react_inv (s : State) (e : Event) (h : Inv s) : Inv (react s e).1 := by
       have hf := h.backoffIdle hp
       split
       · exact beginRun_inv s h.connId (h.isUp_false (by rw [hp]; simp) (by rw [hf]; simp))
-      · refine inv_idle hf h.connId (by simp [awaited, setPc]) (by simp [setPc]) (by simp [setPc])
+      · refine inv_idle hf h.connId (by simp [awaited, setPc]) (by simp [setPc]) (by simp [setPc]) (h.quietFresh (Or.inl hf))
     · exact h
   | connectOk =>
     simp only [react]
